@@ -212,6 +212,51 @@ impl StateRestorer {
         self.jobs.get_mut(&job_id)
     }
 
+    /// Newly issued ids have to differ from all ids that occur anywhere in the journal,
+    /// including ids of objects whose creation record is no longer there (e.g. after pruning).
+    fn update_max_ids(&mut self, payload: &EventPayload) {
+        let mut job = |job_id: JobId| self.max_job_id = self.max_job_id.max(job_id.as_num());
+        match payload {
+            EventPayload::Submit { job_id, .. }
+            | EventPayload::JobCompleted(job_id)
+            | EventPayload::JobOpen(job_id, _)
+            | EventPayload::JobClose(job_id)
+            | EventPayload::JobIdle(job_id)
+            | EventPayload::JobCancel { job_id, .. } => job(*job_id),
+            EventPayload::TaskStarted { task_id, .. }
+            | EventPayload::TaskFinished { task_id }
+            | EventPayload::TaskFailed { task_id, .. } => job(task_id.job_id()),
+            EventPayload::TasksCanceled { task_ids } | EventPayload::TasksAborted { task_ids } => {
+                task_ids.iter().for_each(|task_id| job(task_id.job_id()))
+            }
+            EventPayload::TaskNotify(notify) => job(notify.task_id.job_id()),
+            _ => {}
+        }
+        let mut worker =
+            |worker_id: WorkerId| self.max_worker_id = self.max_worker_id.max(worker_id.as_num());
+        match payload {
+            EventPayload::WorkerConnected(worker_id, _) | EventPayload::WorkerLost(worker_id, _) => {
+                worker(*worker_id)
+            }
+            EventPayload::WorkerOverviewReceived(overview) => worker(overview.id),
+            EventPayload::TaskStarted { worker_ids, .. } => {
+                worker_ids.iter().for_each(|worker_id| worker(*worker_id))
+            }
+            EventPayload::TaskNotify(notify) => worker(notify.worker_id),
+            _ => {}
+        }
+        match payload {
+            EventPayload::AllocationQueueCreated(queue_id, _)
+            | EventPayload::AllocationQueueRemoved(queue_id)
+            | EventPayload::AllocationQueued { queue_id, .. }
+            | EventPayload::AllocationStarted(queue_id, _)
+            | EventPayload::AllocationFinished(queue_id, _) => {
+                self.max_queue_id = self.max_queue_id.max(*queue_id)
+            }
+            _ => {}
+        }
+    }
+
     pub fn load_event_file(&mut self, path: &Path) -> crate::Result<()> {
         log::debug!("Loading event file {}", path.display());
         let mut event_reader = JournalReader::open(path)?;
@@ -221,10 +266,10 @@ impl StateRestorer {
                     "Journal load error: {error:?}.\nIt appears that the journal file is corrupted."
                 ))
             })?;
+            self.update_max_ids(&event.payload);
             match event.payload {
                 EventPayload::WorkerConnected(worker_id, config) => {
                     log::debug!("Replaying: WorkerConnected {worker_id}");
-                    self.max_worker_id = self.max_worker_id.max(worker_id.as_num());
 
                     // If we see a worker connected from an allocation, it should have occurred
                     // in the log *after* the corresponding allocation has been submitted from a
@@ -428,7 +473,6 @@ impl StateRestorer {
                 }
                 EventPayload::AllocationQueueCreated(queue_id, params) => {
                     assert!(self.queues.insert(queue_id, params).is_none());
-                    self.max_queue_id = self.max_queue_id.max(queue_id);
                 }
                 EventPayload::AllocationQueueRemoved(queue_id) => {
                     self.queues.remove(&queue_id);
